@@ -235,7 +235,7 @@ struct LcSim : Harness {
     prog_json = &plan.at("prog"); sigs = prog::signatures(*prog_json);
     if (mode == "C13") for (const char *nm : {"f", "g", "h"}) if (!sigs.count(nm)) { FuncInfo fi; fi.name = nm; fi.na = 1; sigs[nm] = fi; }  // names that only externals define
     mods.assign(prog_json->at("mods").size(), Mod()); fns.clear(); G.clear(); bound.clear(); bound_inlined.clear(); bound_late.clear(); use_impl_bindings = false; pending.clear(); foreign.clear(); ext_log.clear(); reenter_addr.clear(); reenter_name.clear(); resolver_k.clear(); resolver_asked.clear();
-    gen_on = c2m_on = ext_loaded = false; opt_level = 2; redef_allowed = false; ever_exported_fn.clear(); ext_depth = 0; mdepth = 0; store.clear();
+    gen_on = c2m_on = ext_loaded = false; opt_level = 2; redef_allowed = false; expect_error = alt_error = -1; ever_exported_fn.clear(); ext_depth = 0; mdepth = 0; store.clear();
     for (size_t mi = 0; mi < prog_json->at("mods").size(); mi++) for (auto &f : prog_json->at("mods")[mi].at("funcs").a) { Fn fn; fn.def = &f; fn.mod = (int) mi; prog::walk(f.at("body"), [&](const Json &st) { if (st[0].s == "lt" || st[0].s == "ld") fn.has_lt = true; }); fns[f.gets("name")].push_back(fn); }
     if (auto re = kn.find("reenter")) for (auto &p : re->o) reenter_name[atoll(p.first.c_str())] = p.second.s;
     if (auto rs = kn.find("resolver")) for (auto &p : rs->o) resolver_k[p.first] = (int) p.second.num();
@@ -268,13 +268,15 @@ struct LcSim : Harness {
     return out;
   }
 
-  int expect_error = -1; std::string expect_error_why;  // set by the history model before an op that must fail (C13)
+  int expect_error = -1, alt_error = -1; std::string expect_error_why;  // set by the history model before an op that must fail (C13)
   void on_error(Outcome &out) {
     if (expect_error >= 0) {
-      if (err_code != expect_error) out.fail("link_wrong_error", std::to_string(expect_error), fmt("expected error %d (%s) but the error call-back received %d: %s (during %s)", expect_error, expect_error_why.c_str(), err_code, err_msg, g_phase));
+      if (err_code == alt_error) C->count("dont_care_error");  /* the don't-care load inside this link step may report its own error first */
+      else if (err_code != expect_error) out.fail("link_wrong_error", std::to_string(expect_error), fmt("expected error %d (%s) but the error call-back received %d: %s (during %s)", expect_error, expect_error_why.c_str(), err_code, err_msg, g_phase));
       else C->count("expected_error_reported");
-      expect_error = -1; return;
+      expect_error = alt_error = -1; return;
     }
+    alt_error = -1;
     if (expect_error == -2) { expect_error = -1; C->count("dont_care_error"); return; }
     out.fail("unexpected_error", fmt("err%d", err_code), fmt("error call-back (%d: %s) during %s of an error-free history", err_code, err_msg, g_phase));
   }
@@ -436,6 +438,7 @@ struct LcSim : Harness {
       if (expect_error < 0) { expect_error = MIR_undeclared_op_ref_error; expect_error_why = "import of undefined " + n + " in module " + std::to_string(mi); }
     } }
     if (expect_error < 0 && dontcare) expect_error = -2;
+    alt_error = dontcare ? (int) MIR_repeated_decl_error : -1;
     for (int mi : pending) for (auto &fj : prog_json->at("mods")[(size_t) mi].at("funcs").a) {
       bool bad = false; std::string who;
       prog::walk(fj.at("body"), [&](const Json &st) { if (st[0].s == "call") { Fn *g = callable_fn(st[2].s); if (g && mods[g->mod].iface == 4 && g->lazybb_entered) { bad = true; who = st[2].s; } } });
@@ -446,6 +449,7 @@ struct LcSim : Harness {
     if (pending.size() >= 3) C->count("link_with_3_pending_modules");
     static const char *ifn[] = {"link_iface_none", "link_iface_interp", "link_iface_gen", "link_iface_lazy", "link_iface_lazy_bb"}; C->count(ifn[iface]);
     MIR_link(ctx, setif, use_resolver ? resolver_c : nullptr);
+    alt_error = -1;
     if (expect_error >= 0) { out.fail("link_missing_error", std::to_string(expect_error), "MIR_link succeeded but the model expects an error: " + expect_error_why); expect_error = -1; return; }
     expect_error = -1;
     for (int mi : pending) { mods[mi].linked = true; mods[mi].iface = iface; }
